@@ -18,12 +18,15 @@ func init() {
 			func(r *Rng) (string, *HistInput) { return "no-handlers", genHistory(r, noH) },
 			func(r *Rng) (string, *HistInput) { return "handlers", genHistory(r, withH) },
 			func(r *Rng) (string, *HistInput) { return "handlers", genHistory(r, withH) },
+			c01Faulty(withH),
 		}
 		return runHistCases(c, "C01", "EvalC01", gens, 600, 20000,
 			"random schemas (2-8 user states + Exception, relation density swept, Auto/Multi 25%), "+
 				"histories of 1-30 Add/Remove/Set/Toggle/AddErr/CanAdd/CanRemove calls, 0-3 handler bindings with "+
 				"scripted vetoes (0-40%) and nested mutations; distinct by (input, observation); "+
-				"non-trivial = at least one transition executed; plus a readers stream: 4 goroutines sampling "+
+				"non-trivial = at least one transition executed; every 4th case with 1-2 handler invocations (a final handler " +
+				"in two thirds of them) that panic and are recovered - such histories are judged by the every-history clauses " +
+				"(parity in every view, ticks never decrease; theorem c01_judge_run); plus a readers stream: 4 goroutines sampling "+
 				"Machine.StringAll() while the history runs, with the tx:applied schedule point yielding", nil,
 			histOpts{caseType: "c01case", wrap: "C01H", extra: func(out *Out) { c01Readers(c, out, withH) }})
 	})
@@ -62,5 +65,44 @@ func c01Readers(c *Ctx, out *Out, o GenOpt) {
 		b.WriteString("] |}")
 		out.Count("reader_samples", bucket(total))
 		out.Add("readers", in, map[string]any{"samples": total}, b.String(), total == 0, "")
+	}
+}
+
+// c01Faulty: histories in which 1-2 handler invocations panic and are
+// recovered by the machine; two thirds of them aim at a final handler
+// (FooState / FooEnd / AnyState) that the fault-free dry run reached, where
+// the recovery path re-ticks the states whose final handlers did not run.
+func c01Faulty(o GenOpt) func(r *Rng) (string, *HistInput) {
+	return func(r *Rng) (string, *HistInput) {
+		f := o
+		f.VetoPct, f.MinStates = 5, 3
+		for try := 0; ; try++ {
+			in := genHistory(r, f)
+			if len(in.Bindings) == 0 && try < 50 {
+				continue
+			}
+			dry := runHistory(in)
+			if (dry.ParseErr != "" || dry.Crashed || dry.Hung) && try < 50 {
+				continue
+			}
+			n := len(dry.HLog)
+			for len(in.Actions) < n+8 {
+				in.Actions = append(in.Actions, HAction{Ret: true})
+			}
+			var finals []int
+			for j, e := range dry.HLog {
+				if hkeyFinal(e.Key) {
+					finals = append(finals, j)
+				}
+			}
+			for k := 0; k < r.Range(1, 2); k++ {
+				if len(finals) > 0 && r.Chance(66) {
+					in.Actions[finals[r.Intn(len(finals))]].Fault = "panic"
+				} else {
+					in.Actions[r.Intn(n+4)].Fault = "panic"
+				}
+			}
+			return "faults", in
+		}
 	}
 }
